@@ -317,6 +317,10 @@ class World:
             reqs.append({"op": "query", "contract": c, "msg": json.dumps(m, separators=(",", ":"))})
         if op.get("bank"):
             reqs.append({"op": "bank", "from": op["actor"], "to": op["contract"], "funds": op["funds"], "snap": True})
+        elif op.get("wasm_migrate"):
+            # the contract's wasm admin migrates it to the code registered under this name
+            reqs.append({"op": "migrate", "sender": op["actor"], "contract": op["contract"], "code": op["wasm_migrate"],
+                         "msg": "{}", "snap": True})
         else:
             m = op["msg"]
             reqs.append({"op": "exec", "sender": op["actor"], "contract": op["contract"],
